@@ -15,6 +15,8 @@
         positions;
     (c) `C07_assoc_precedes_owner`: with an associated field in force an `.assoc e.id n` item is
         recorded immediately in front of the element's own item (not for class 31).
+    (c') `C07_operator_marks_boundary`, `C07_cancel_back_references`, `C07_recall_restarts`,
+        `C07_reuse_marks_are_inert`: what 22X000 / 235000 / 237000 / 236000 / 237255 do to the registers and items.
     (d) `C07_links_eq_spec` is NOT proved; its statement is kept below as a comment.  The equality is
         checked by correspondence (harness/props/c07.py evaluates `Spec.links` on the implementation's
         items for every generated case).
